@@ -221,7 +221,10 @@ def match_known(v, known):
     for k in known.get('known', []):
         if k['property'] != v['prop']:
             continue
-        m = k.get('match', {})
+        m = dict(k.get('match', {}))
+        tags = m.pop('tags', None)
+        if tags is not None and v.get('tag') not in tags:
+            continue
         if all(v.get(kk) == vv for kk, vv in m.items()):
             return k
     return None
